@@ -41,6 +41,52 @@ def cases(ctx, depth):
     return out
 
 
+def reuse_sequences(ctx, eps, grad=False):
+    """`evaluate` is a function of its arguments: ONE objective object evaluated on a sequence of different inputs of the
+    same shape (different predictions, different affinities, with and without return_grad in between) must give, at every
+    step, the documented value for THAT input.  Returns [(cls, ovo, P, A, result of the shared object, object)]."""
+    rs = np.random.RandomState(ctx.seed * 7919 + 77)
+    out = []
+    how = "one gemclus.gemini.<Class> object evaluated on the listed inputs in order; the last one is judged"
+    for cls, ovo in gl.CONFIGS:
+        for rep in range(2 if ctx.tier == "quick" else 8):
+            n, K = [(4, 2), (5, 3), (6, 3), (7, 4)][rs.randint(4)]
+            g = gl.real_gemini(cls, ovo, eps)
+            hist = []
+            for step in range(3):
+                P = gl.gen_P(rs, n, K, ["soft", "dirichlet", "sharp"][rs.randint(3)])
+                A = None
+                if cls == "mmd":
+                    A = gl.gen_affinity(rs, n, gl.KERNELS[rs.randint(len(gl.KERNELS))])
+                if cls == "wass":
+                    A = gl.gen_affinity(rs, n, gl.METRICS[rs.randint(len(gl.METRICS))])
+                wg = bool(rs.randint(2)) if not grad else True
+                hist.append({"P": P.tolist(), "A": None if A is None else A.tolist(), "return_grad": wg})
+                try:
+                    r = g.evaluate(P.copy(), None if A is None else A.copy(), return_grad=wg)
+                except Exception as e:
+                    ctx.violation(f"evaluate raised {type(e).__name__}: {e} on a reused object", "score:reuse",
+                                  {"config": f"{cls}_{'ovo' if ovo else 'ova'}", "sequence": hist}, key=f"reuse-raise:{cls}", how=how)
+                    break
+                sc = float(r[0] if wg else r)
+                ctx.compared("score:reuse")
+                ctx.case(("reuse", cls, ovo, P.tobytes(), None if A is None else A.tobytes(), step), step > 0, None)
+                out.append((cls, ovo, P, A, r if wg else None, list(hist)))
+                try:
+                    want = gl.spec_score(cls, ovo, P, A)
+                except RuntimeError:
+                    continue
+                scale = 1.0 if A is None else max(1.0, float(np.abs(A).max()))
+                tol = {"mmd": 2e-6 * np.sqrt(scale), "wass": 1e-7 * scale}.get(cls, 1e-9)
+                if not core.close(sc, want, rtol=tol, atol=tol):
+                    ctx.violation(f"evaluation number {step + 1} on one object: score {sc!r} differs from the documented "
+                                  f"definition {want!r} for that input", "score:reuse",
+                                  {"config": f"{cls}_{'ovo' if ovo else 'ova'}", "sequence": hist}, expected=want, actual=sc,
+                                  key=f"reuse:{cls}_{'ovo' if ovo else 'ova'}", how=how)
+                    break
+    return out
+
+
 def run(ctx):
     ctx.rule = ("12 configurations (6 classes x ovo) x shapes n in 1..10, K in 2..6 x simplex regimes "
                 "(near-uniform ... near one-hot 1e-9) x kernels/metrics (incl. non-PSD sigmoid, random symmetric); "
@@ -106,8 +152,9 @@ def run(ctx):
         if not core.close(r, s, rtol=tol, atol=tol):
             ctx.violation(f"score {r!r} differs from the documented distance-based definition {s!r}", "score",
                           inp, expected=s, actual=r, key=f"score:{desc['config']}", how=how)
+    reuse_sequences(ctx, eps)
     # registry: translated table vs the live objects, and names vs documented meaning
-    if data is not None:
+    if True:   # the oracle runs even when the registry could not be translated (`data is None`): it needs no model
         from gemclus.gemini._utils import _str_to_gemini, AVAILABLE_GEMINIS
         import gemclus.gemini as G
         doc = {"mmd_ova": ("MMDGEMINI", False), "mmd_ovo": ("MMDGEMINI", True),
@@ -129,7 +176,7 @@ def run(ctx):
             # which evaluate runs?
             ev_cls = next(c.__name__ for c in type(g).__mro__ if "evaluate" in c.__dict__)
             live = (ev_cls, bool(g.ovo))
-            if data["entries"].get(name) != live:
+            if data is not None and data["entries"].get(name) != live:
                 ctx.corr_break("registry", {"name": name}, {"translated": data["entries"].get(name), "live": live})
             A = g.compute_affinity(X)
             want = gl.spec_score(gl.REV[doc[name][0]], doc[name][1], P, A)
@@ -139,7 +186,7 @@ def run(ctx):
                 ctx.violation(f"registry name {name!r} gives {live}, score {got}; documented {doc[name]}, score {want}",
                               "registry", {"name": name, "P": P.tolist(), "X": X.tolist()}, expected=want, actual=got,
                               key=f"registry:{name}")
-        if sorted(AVAILABLE_GEMINIS) != sorted(data["available"]):
+        if data is not None and sorted(AVAILABLE_GEMINIS) != sorted(data["available"]):
             ctx.corr_break("registry", {}, {"translated": data["available"], "live": AVAILABLE_GEMINIS})
         # MI() is KLGEMINI(ovo=False)
         if float(G.MI()(P, None)) != float(G.KLGEMINI(ovo=False)(P, None)):
